@@ -122,3 +122,40 @@ theorem exchange_prefix (s : Proto) (p : Packet) (k : Kind) (capture : Bool) :
 #print axioms exchangeLoop_timeout
 #print axioms exchangeAllLoop_spec
 end Ross
+
+namespace Ross
+
+/-- what is left on the link after the multi-reply loop: everything behind the first "nothing" (or link error) -/
+def afterDrain : List (Except IfErr Packet) → List (Except IfErr Packet)
+  | .ok _ :: q => afterDrain q
+  | _ :: q => q
+  | [] => []
+
+/-- C18 (all replies) "drains the link": exactly the packets up to and including the first "nothing" (or link error)
+are consumed, whatever they were; handlers and configuration are untouched -/
+theorem exchangeAllLoop_queue (s : Proto) (k : Kind) (capture : Bool) (acc : List Event)
+    (q : List (Except IfErr Packet)) :
+    (s.exchangeAllLoop k capture acc q).1 = { s with rxQueue := afterDrain q } := by
+  induction q generalizing acc with
+  | nil => simp [Proto.exchangeAllLoop, afterDrain]
+  | cons x q ih =>
+    rcases x with e | r
+    · cases e <;> simp [Proto.exchangeAllLoop, afterDrain]
+    · simp only [Proto.exchangeAllLoop, afterDrain]
+      split
+      · cases hd : decode k r <;> simp only [] <;> exact ih _
+      · exact ih _
+
+/-- C18 (all replies): a link error behind any number of packets is propagated -/
+theorem exchangeAllLoop_error (s : Proto) (k : Kind) (capture : Bool) (acc : List Event) (pre : List Packet)
+    (t : Nat) (post : List (Except IfErr Packet)) :
+    (s.exchangeAllLoop k capture acc (pre.map .ok ++ .error (.other t) :: post)).2 = .error (.interface t) := by
+  induction pre generalizing acc with
+  | nil => simp [Proto.exchangeAllLoop]
+  | cons r pre ih =>
+    simp only [List.map_cons, List.cons_append, Proto.exchangeAllLoop]
+    split
+    · cases hd : decode k r <;> simp only [] <;> exact ih _
+    · exact ih _
+
+end Ross
